@@ -5,3 +5,4 @@ pub mod rtverbs;
 pub mod dynmsg;
 pub mod msgverbs;
 pub mod adv;
+pub mod refcodec;
